@@ -183,7 +183,18 @@ impl FolderMerge for Folder {
                                 None
                             };
 
-                        access_point.update_secret(id, meta, secret).await?;
+                        // The secret may have been deleted locally
+                        // before this update is replayed; replaying the
+                        // event log keeps the updated secret so the
+                        // folder must keep it too
+                        if access_point
+                            .update_secret(id, meta.clone(), secret.clone())
+                            .await?
+                            .is_none()
+                        {
+                            let row = SecretRow::new(*id, meta, secret);
+                            access_point.create_secret(&row).await?;
+                        }
 
                         #[cfg(feature = "search")]
                         if let (
